@@ -88,12 +88,23 @@ def run(ctx):
         ctx.note("slot model, schedules and cone tables of laue are identical to those of tools: the table verdicts hold for both")
     for which, relname, sfx in todo:
         model_ops, schedules, segm = models[which]
+        # in the second pass only what differs from tools is analysed again (same keys otherwise)
+        same_rules = which == "tools" or (model_ops == models["tools"][0] and sched_key(schedules) == sched_key(models["tools"][1]))
+
+        def same_cones(laue_, cc_):
+            if which == "tools":
+                return False
+            a_ = tables.select_segm(segm, laue_, cc_)
+            b_ = tables.select_segm(models["tools"][2], laue_, cc_)
+            return [t_["table"] for t_ in a_] == [t_["table"] for t_ in b_]
         # ---- syscond vs operators, per setting
         jobs = []
         by_key = {}
         for s in settings:
             if len(s.syscond) != 26:
                 ctx.fail("C05:syscond:%s:length%s" % (s.key, sfx), "syscond has %d entries" % len(s.syscond), "%s:%d" % (sgl.rel, s.lines.get("syscond", 0)))
+                continue
+            if which != "tools" and same_rules and same_cones(s.Laue, s.cell_choice):
                 continue
             hits = tables.select_segm(segm, s.Laue, s.cell_choice)
             if len(hits) != 1:
@@ -125,7 +136,7 @@ def run(ctx):
             combos.setdefault((s.Laue, s.cell_choice, s.crystal_system), s)
         for (laue, cc, csys), s in sorted(combos.items()):
             hits = tables.select_segm(segm, laue, cc)
-            if len(hits) != 1:
+            if len(hits) != 1 or same_cones(laue, cc):
                 continue
             fam = H.metric_family(csys, cc)
             for ci, rows in enumerate(hits[0]["table"]):
